@@ -3,6 +3,7 @@ CONSTANTS
   MaxDim = 3
   MaxCov = 2
   MaxIds = 3
+  BigDims = {9, 12}
   MaxSel = 4
 SPECIFICATION Spec
 CHECK_DEADLOCK FALSE
